@@ -21,7 +21,7 @@ for sid in ids:
     try:
         rc, out = sh(f"./check {prop} quick", V)
     finally:
-        sh("git checkout -- .", "/repo")
+        sh("git checkout -- . && git clean -fdq", "/repo")
     viol = [l for l in out.splitlines() if l.startswith("VIOLATION")]
     det = rc == 1 and len(viol) > 0
     meta.setdefault("detected_by", {})[prop] = det
